@@ -33,24 +33,26 @@ EXTENDS Naturals, Sequences, FiniteSets, TLC
 CONSTANTS Configs          \* sequence of records [name, tops, link, hasjac, priorargs, jac, raw, check]
 
 VARIABLES c,               \* index of the configuration under examination
+          cfg,             \* the configuration itself (a variable so that the constant is evaluated once, not per access)
           up, frontier,    \* ids upstream of the prior arguments (closure under Link), work list
           phase            \* "walk" | "done"
-vars == <<c, up, frontier, phase>>
+vars == <<c, cfg, up, frontier, phase>>
 
-Cfg == Configs[c]
+Cfg == cfg
 LinkOf(i) == IF i \in DOMAIN Cfg.link THEN Cfg.link[i] ELSE {}
 
-Init == /\ c \in DOMAIN Configs
-        /\ up = Configs[c].priorargs /\ frontier = Configs[c].priorargs
-        /\ phase = "walk"
+Init == LET C == Configs IN
+        \E i \in DOMAIN C : /\ c = i /\ cfg = C[i]
+                             /\ up = C[i].priorargs /\ frontier = C[i].priorargs
+                             /\ phase = "walk"
 Walk == /\ phase = "walk" /\ frontier # {}
         /\ LET i == CHOOSE j \in frontier : TRUE
                new == LinkOf(i) \ up IN
            /\ up' = up \cup new
            /\ frontier' = (frontier \ {i}) \cup new
-        /\ UNCHANGED <<c, phase>>
+        /\ UNCHANGED <<c, cfg, phase>>
 Finish == /\ phase = "walk" /\ frontier = {}
-          /\ phase' = "done" /\ UNCHANGED <<c, up, frontier>>
+          /\ phase' = "done" /\ UNCHANGED <<c, cfg, up, frontier>>
 Next == Walk \/ Finish
 Spec == Init /\ [][Next]_vars
 
